@@ -453,7 +453,15 @@ func Run(e *core.Env, sc *Scenario) {
 	if sc.has("stacks") {
 		e.LogStacks("at the end")
 	}
-	conn.Close()
+	// ClientConn.Close must return; if it does not, the run goes on without it
+	// (the blocked goroutine is then also reported as stuck)
+	closed := make(chan struct{})
+	go func() { conn.Close(); close(closed) }()
+	select {
+	case <-closed:
+	case <-time.After(10 * time.Minute):
+		e.Violate("clientconn_close_hangs", "ClientConn.Close has not returned after 10 minutes (virtual)")
+	}
 	w.lis.Close()
 	<-acceptDone
 	// the client closes its connections; a transport whose writer is stuck
